@@ -37,6 +37,7 @@ def annotF : Nat → Mode → Spec → List (Nat × Mode)
     | .not c => a m c
     | .switch cases d => cases.flatMap (fun e => a m e.1 ++ a m e.2) ++ (optSpecs d).flatMap (a m)
     | .iter s _ => a m s                -- a lazy stream: the mode of the site where it is *written*
+    | .inspect s _ _ => a m s
     | _ => []
 
 /-- no `Ref(name)` use: its spec comes from the scope, so its mode is that of the use site -/
@@ -54,7 +55,7 @@ def noRefF : Nat → Spec → Bool
     | .coalesce subs d _ _ _ => subs.all n && (optSpecs d).all n
     | .call f as kw => n f && n as && n kw
     | .invoke f _ blocks => n f && blocks.all (fun b => b.2.1.all n && b.2.2.all (fun kv => n kv.2))
-    | .auto s | .fill s | .group s | .not s | .iter s _ => n s
+    | .auto s | .fill s | .group s | .not s | .iter s _ | .inspect s _ _ => n s
     | .mtch s d => n s && (optSpecs d).all n
     | .and cs d | .or cs d => cs.all n && (optSpecs d).all n
     | .switch cases d => cases.all (fun e => n e.1 && n e.2) && (optSpecs d).all n
@@ -75,7 +76,7 @@ def hasIterF : Nat → Spec → Bool
     | .coalesce subs d _ _ _ => subs.any h || (optSpecs d).any h
     | .call f as kw => h f || h as || h kw
     | .invoke f _ blocks => h f || blocks.any (fun b => b.2.1.any h || b.2.2.any (fun kv => h kv.2))
-    | .auto s | .fill s | .group s | .not s => h s
+    | .auto s | .fill s | .group s | .not s | .inspect s _ _ => h s
     | .mtch s d => h s || (optSpecs d).any h
     | .and cs d | .or cs d => cs.any h || (optSpecs d).any h
     | .switch cases d => cases.any (fun e => h e.1 || h e.2) || (optSpecs d).any h
@@ -92,30 +93,50 @@ end Glom.Interp
 
 namespace Glom.Interp
 
-/-- does the spec contain a plain container in Fill or argument position (a Fill wrapper, a
-    Coalesce/Match/Switch default, Call arguments, an S(k=…) value) with at least one item? -/
-def hasArgContainer : Nat → Spec → Bool
-  | 0, _ => false
-  | fuel + 1, s =>
-    let h := hasArgContainer fuel
-    let isCont : Spec → Bool := fun x => match x with
-      | .list (_ :: _) | .tuple (_ :: _) | .dict _ (_ :: _) | .set _ (_ :: _) => true
-      | _ => false
+/-- Does the spec contain a *plain* Python object (a str, a tuple, a list, a dict, a set, a
+    callable, a type, a literal) at a position where it is not read the AUTO way: a position whose
+    static mode — the nearest enclosing wrapper, however many Pipes, Specs, Coalesces, Switches, dict
+    values or tuple items lie in between — is Fill, Match or Group, or an argument position (a
+    Coalesce / Match / Switch / And / Or default, Call func / args / kwargs, an `S(k=…)` value, and
+    everything below it through plain containers; a spec-like object ends the argument position)?
+    For such specs the result itself is the observation of the mode: the checker demands the result
+    of the static-mode reference.  `m` is the static mode of the position, `arg` the argument flag. -/
+def modeSensitiveF : Nat → Mode → Bool → Spec → Bool
+  | 0, _, _, _ => false
+  | fuel + 1, m, arg, s =>
+    let h := modeSensitiveF fuel
+    let here := arg || m != .auto
     match s with
-    | .fill x => isCont x || h x
-    | .coalesce subs d _ _ _ => (optSpecs d).any isCont || subs.any h || (optSpecs d).any h
-    | .call f as kw => isCont as || isCont kw || h f || h as || h kw
-    | .sBind bs => bs.any (fun b => isCont b.2 || h b.2)
-    | .mtch x d => (optSpecs d).any isCont || h x || (optSpecs d).any h
-    | .switch cases d => (optSpecs d).any isCont || cases.any (fun e => h e.1 || h e.2) || (optSpecs d).any h
-    | .and cs d | .or cs d => (optSpecs d).any isCont || cs.any h || (optSpecs d).any h
-    | .tuple xs | .list xs | .set _ xs | .pipe xs => xs.any h
-    | .dict _ es => es.any (fun e => h e.1 || h e.2)
-    | .specW x _ | .auto x | .group x | .not x | .iter x _ => h x
-    | .letB bs => bs.any (fun b => h b.2)
-    | .invoke f _ blocks => h f || blocks.any (fun b => b.2.1.any h || b.2.2.any (fun kv => h kv.2))
-    | .ref _ (some x) => h x
+    | .str _ | .lit _ | .fn .. | .ty _ => here
+    | .tuple xs | .list xs | .set _ xs => (here && !xs.isEmpty) || xs.any (h m arg)
+    | .dict _ es => (here && !es.isEmpty) || es.any (fun e => h m arg e.1 || h m arg e.2)
+    | .pipe xs => xs.any (h m false)
+    | .sBind bs => bs.any (fun b => h m true b.2)
+    | .letB bs => bs.any (fun b => h m false b.2)
+    | .specW x _ | .not x | .iter x _ | .inspect x _ _ => h m false x
+    | .coalesce subs d _ _ _ => subs.any (h m false) || (optSpecs d).any (h m true)
+    | .call f as kw => h m true f || h m true as || h m true kw
+    | .invoke f _ blocks =>
+      h m false f || blocks.any (fun b => b.1 != "C" && (b.2.1.any (h m false) || b.2.2.any (fun kv => h m false kv.2)))
+    | .ref _ (some x) => h m false x
+    | .auto x => h .auto false x
+    | .fill x => h .fill false x
+    | .mtch x d => h .mtch false x || (optSpecs d).any (h .mtch true)
+    | .group x => h .group false x
+    | .and cs d | .or cs d => cs.any (h m false) || (optSpecs d).any (h m true)
+    | .switch cases d => cases.any (fun e => h m false e.1 || h m false e.2) || (optSpecs d).any (h m true)
     | _ => false
+
+/-- the interpreter a *plain* (non-spec-like) object gets: `_ArgValuator.mode` in argument
+    position, else the mode function of the mode in force (the `else` branch of `_glom`) -/
+def plainFn {σ : Type} [ScopeAlg σ] (p : Prims) (rec : Rec σ) (arg : Bool) (m : Mode) (spec : Spec)
+    (target : V) (own : σ) : M V :=
+  if arg then argModeFn p rec spec target own
+  else match m with
+    | .auto => autoFn p rec spec target own
+    | .fill => fillFn p rec spec target own
+    | .mtch => matchFn p rec spec target own
+    | .group => groupFn p spec target
 
 /-- top-level shape of a Fill result: a list / tuple / set spec is rebuilt as the same kind of
     container with one item per spec item, a dict as a dict; literals are returned as they are -/
@@ -145,7 +166,7 @@ def checkFresh (o : FreshObs) : Bool := o.noSpecObject && o.rerunSame
 end Glom.Interp
 
 /-!
-  ### self-referential containers in argument position (reference; exercised, not proved)
+  ### self-referential containers in argument position (reference; proved in `Glom/Props/C08.lean`)
 
   A container literal in argument position may contain itself (`d = {}; d['self'] = d`).  glom's
   `_ArgValuator` rebuilds it with an id()-memo for lists and dicts: the result is a *fresh* object
@@ -154,6 +175,13 @@ end Glom.Interp
   target.  `rebuild` computes that graph in canonical form: list / dict nodes numbered in
   first-visit order (items left to right, a dict entry's key before its value), a later visit of
   the same node is a `ref`.
+
+  The spec is a *heap*: `nodes[i]` is container `i` with its items in order (a dict's items are
+  key₀, value₀, key₁, value₁, …); an item is a leaf spec or a reference to a node.  `rebuildItem`
+  is `recur(val)` of `_ArgValuator.mode`; the fuel bounds the recursion depth only
+  (`none` = fuel exhausted; `Props/C08` proves that `fuelBound` suffices for every heap whose
+  tuple-only reference paths are acyclic — which Python guarantees, tuples being immutable — and
+  that the result is isomorphic to the part of the heap reachable from the root).
 -/
 namespace Glom.Interp
 
@@ -162,64 +190,93 @@ inductive GItem where
   | leaf (s : Spec)               -- a non-container spec (T, Spec, literal, callable …)
   deriving Repr, Inhabited
 
-inductive GNode where
-  | list (xs : List GItem)
-  | dict (es : List (GItem × GItem))
-  | tuple (xs : List GItem)
+inductive GKind where
+  | list | dict | tuple
+  deriving Repr, DecidableEq, Inhabited
+
+structure GNode where
+  kind : GKind
+  items : List GItem              -- dict: key, value, key, value, …
   deriving Repr, Inhabited
 
 inductive GOut where
   | leaf (v : V)
-  | ref (n : Nat)
-  | list (n : Nat) (xs : List GOut)
-  | dict (n : Nat) (es : List (GOut × GOut))
+  | ref (n : Nat)                                 -- a later visit of rebuilt node `n`
+  | node (isDict : Bool) (n : Nat) (xs : List GOut)   -- the first visit: rebuilt list / dict number `n`
   | tuple (xs : List GOut)
   deriving Repr, Inhabited
 
-/-- spec node ↦ number of the node rebuilt for it (the memo `self.cache[id(spec)]`) -/
+/-- spec node ↦ number of the node rebuilt for it (the memo `self.cache[id(spec)]`), newest first -/
 abbrev Memo := List (Nat × Nat)
-
-def pairUp : List GOut → List (GOut × GOut)
-  | k :: v :: rest => (k, v) :: pairUp rest
-  | _ => []
 
 mutual
 /-- `recur(val)` in `_ArgValuator.mode` -/
 def rebuildItem (ev : Spec → Except Err V) (nodes : List GNode) :
-    Nat → GItem → Memo → Except Err (GOut × Memo)
-  | 0, _, _ => .error ⟨"OutOfFuel"⟩
-  | _ + 1, .leaf s, memo => do
-    let v ← ev s
-    pure (.leaf v, memo)
+    Nat → GItem → Memo → Option (Except Err (GOut × Memo))
+  | 0, _, _ => Option.none
+  | _ + 1, .leaf s, memo =>
+    match ev s with
+    | .ok v => some (.ok (.leaf v, memo))
+    | .error e => some (.error e)
   | fuel + 1, .ref i, memo =>
-    match memo.find? (·.1 == i) with
-    | some (_, n) => pure (.ref n, memo)                       -- `return self.cache[id(spec)]`
+    match memo.lookup i with
+    | some n => some (.ok (.ref n, memo))                       -- `return self.cache[id(spec)]`
     | Option.none =>
       match nodes[i]? with
-      | Option.none => .error ⟨"BadGraph"⟩
-      | some (.list xs) => do
-        let n := memo.length
-        let (ys, memo') ← rebuildItems ev nodes fuel xs ((i, n) :: memo)
-        pure (.list n ys, memo')
-      | some (.dict es) => do
-        let n := memo.length
-        let (ys, memo') ← rebuildItems ev nodes fuel (es.flatMap (fun e => [e.1, e.2])) ((i, n) :: memo)
-        pure (.dict n (pairUp ys), memo')
-      | some (.tuple xs) => do
-        let (ys, memo') ← rebuildItems ev nodes fuel xs memo
-        pure (.tuple ys, memo')
+      | Option.none => some (.error ⟨"BadGraph"⟩)
+      | some nd =>
+        match nd.kind with
+        | .tuple =>
+          match rebuildItems ev nodes fuel nd.items memo with
+          | Option.none => Option.none
+          | some (.error e) => some (.error e)
+          | some (.ok (ys, memo')) => some (.ok (.tuple ys, memo'))
+        | k =>
+          -- `ret = self.cache[id(spec)] = type(spec)()` *before* the items are visited
+          match rebuildItems ev nodes fuel nd.items ((i, memo.length) :: memo) with
+          | Option.none => Option.none
+          | some (.error e) => some (.error e)
+          | some (.ok (ys, memo')) => some (.ok (.node (k == .dict) memo.length ys, memo'))
 def rebuildItems (ev : Spec → Except Err V) (nodes : List GNode) :
-    Nat → List GItem → Memo → Except Err (List GOut × Memo)
-  | 0, _, _ => .error ⟨"OutOfFuel"⟩
-  | _ + 1, [], memo => pure ([], memo)
-  | fuel + 1, x :: xs, memo => do
-    let (y, m1) ← rebuildItem ev nodes fuel x memo
-    let (ys, m2) ← rebuildItems ev nodes fuel xs m1
-    pure (y :: ys, m2)
+    Nat → List GItem → Memo → Option (Except Err (List GOut × Memo))
+  | 0, _, _ => Option.none
+  | _ + 1, [], memo => some (.ok ([], memo))
+  | fuel + 1, x :: xs, memo =>
+    match rebuildItem ev nodes fuel x memo with
+    | Option.none => Option.none
+    | some (.error e) => some (.error e)
+    | some (.ok (y, m1)) =>
+      match rebuildItems ev nodes fuel xs m1 with
+      | Option.none => Option.none
+      | some (.error e) => some (.error e)
+      | some (.ok (ys, m2)) => some (.ok (y :: ys, m2))
 end
+
+/-- the widest node -/
+def maxWidth (nodes : List GNode) : Nat := nodes.foldl (fun w nd => max w nd.items.length) 0
+
+/-- recursion depth that suffices for every heap (see `c08_rebuild_terminates`): at most
+    `nodes.length` list / dict nodes are open at a time, at most `nodes.length + 1` nested tuples
+    lie between two of them, and walking to item `j` of a node costs `j + 2` levels -/
+def fuelBound (nodes : List GNode) : Nat :=
+  (nodes.length * (nodes.length + 3) + nodes.length + 2) * (maxWidth nodes + 2)
+
+/-- the generator's domain: a tuple that is directly an item of a tuple has a larger index (the
+    tuples are numbered in an order in which they can be constructed) — a decidable sufficient
+    condition for `TupleAcyclic` (`c08_forward_tuples_acyclic`) -/
+def tuplesForward (nodes : List GNode) : Bool :=
+  (List.range nodes.length).all (fun i => match nodes[i]? with
+    | some nd => nd.kind != .tuple || nd.items.all (fun x => match x with
+      | .ref j => (match nodes[j]? with
+        | some nd' => nd'.kind != .tuple || decide (i < j)
+        | Option.none => true)
+      | .leaf _ => true)
+    | Option.none => true)
 
 /-- the rebuilt graph of `root`, or the first error a leaf raises -/
 def rebuild (ev : Spec → Except Err V) (nodes : List GNode) (root : GItem) : Except Err GOut :=
-  (rebuildItem ev nodes 4096 root []).map (·.1)
+  match rebuildItem ev nodes (fuelBound nodes) root [] with
+  | some r => r.map (·.1)
+  | Option.none => .error ⟨"OutOfFuel"⟩
 
 end Glom.Interp
